@@ -1,8 +1,8 @@
 (* C15, program level, programs WITH type parameters and type arguments: check (the code as it is,
    and the code before fix d524b1f) accepts only programs that satisfy the declarative rules -
    provided the types written inside data/codata declarations are well-formed ([decl_types_wf],
-   the complement of known finding C15-lazy-declaration-types: the checker tests them by head name
-   only) and all type / constructor / destructor names are identifier-like ([prog_names_ok]; true of
+   the complement of the former finding C15-lazy-declaration-types; since fix <commit15> the checker
+   establishes it, Proof/CheckDecls.v, and Proof/CheckFixed.v drops the hypothesis) and all type / constructor / destructor names are identifier-like ([prog_names_ok]; true of
    every parsed program). *)
 From Coq Require Import List ZArith String Bool Permutation Lia.
 From SCC Require Import Base.Sexp Lang.SynUtil Lang.FunSyn Model.Check Sem.FunTyping
@@ -77,6 +77,17 @@ Section Defs.
       rewrite C2, andb_true_r. eapply ty_declared_mono; [apply (grows_names_le _ _ G2)|]. apply has_inst_declared. exact Hi1.
   Qed.
 
+  (* def.rs, since fix <commit12>: the return type of `main` is compared with i64 *)
+  Lemma main_ret_check_psound : forall d st st', ty_names_ok (fdret d) = true -> tables ts fs st -> pinv ts st ->
+    main_ret_check d st = COk st' -> main_ret_ok d = true /\ pinv ts st' /\ same_templates st st' /\ grows st st'.
+  Proof.
+    intros d st st' Hm Tb I H. unfold main_ret_check in H. unfold main_ret_ok.
+    destruct (String.eqb (fdname d) "main").
+    - destruct (check_equality_sound ts fs W FI64 (fdret d) st st' eq_refl Hm Tb I H) as [E [_ [I' [S [G _]]]]].
+      rewrite <- E. splits; auto.
+    - inversion H; subst. splits; auto using same_templates_refl, grows_refl.
+  Qed.
+
   Lemma def_check_gen_psound : forall eager d st d' st',
     ctx_names_ok (fdctx d) = true -> ty_names_ok (fdret d) = true -> term_names_ok (fdbody d) = true ->
     tables ts fs st -> pinv ts st -> def_check_gen eager d st = COk (d', st') ->
@@ -85,18 +96,22 @@ Section Defs.
     intros eager d st d' st' Hmc Hmr Hmb Tb I H. unfold def_check_gen in H.
     apply cbind_ok in H. destruct H as [[] [Hnd H]].
     apply cbind_ok in H. destruct H as [st1 [H1 H]].
-    apply cbind_ok in H. destruct H as [st2 [H2 H]].
+    apply cbind_ok in H. destruct H as [st2a [H2 H]].
+    apply cbind_ok in H. destruct H as [st2 [H2m H]].
     apply cbind_ok in H. destruct H as [[body' st3] [H3 H]]. inversion H; subst.
     apply ctx_no_dups_go_ok in Hnd. destruct Hnd as [Hnd _].
     destruct (ctx_check_psound _ _ _ Hmc Tb I H1) as [Hwc [I1 [S1 [G1 C1]]]].
-    destruct (ty_check_sound ts fs W _ _ _ Hmr (tables_same _ _ _ _ Tb S1) I1 H2) as [Hwr [I2 [S2 [G2 Hi2]]]].
+    destruct (ty_check_sound ts fs W _ _ _ Hmr (tables_same _ _ _ _ Tb S1) I1 H2) as [Hwr [I2a [S2a [G2a Hi2]]]].
+    assert (S02a : same_templates st st2a) by eauto using same_templates_trans.
+    destruct (main_ret_check_psound d st2a st2 Hmr (tables_same _ _ _ _ Tb S02a) I2a H2m) as [Hmain [I2 [S2 G2m]]].
     assert (S02 : same_templates st st2) by eauto using same_templates_trans.
+    assert (G2 : grows st1 st2) by eauto using grows_trans.
     destruct (check_term_gen_psound ts fs W (fdbody d) eager st2 (fdctx d) (fdret d) body' st' Hmb Hmc Hmr (tables_same _ _ _ _ Tb S02) I2 H3)
       as [K [I3 [S3 [G3 C3]]]].
-    unfold def_ok. unfold E in K. rewrite Hnd, Hwc, Hwr, K. splits; eauto using same_templates_trans, grows_trans.
+    unfold def_ok. unfold E in K. rewrite Hmain, Hnd, Hwc, Hwr, K. splits; eauto using same_templates_trans, grows_trans.
     unfold def_closed. simpl. rewrite C3, andb_true_r.
     rewrite (ctx_declared_mono _ _ _ (grows_names_le _ _ (grows_trans _ _ _ G2 G3)) C1).
-    exact (ty_declared_mono _ _ _ (grows_names_le _ _ G3) (has_inst_declared _ _ Hi2)).
+    exact (ty_declared_mono _ _ _ (grows_names_le _ _ (grows_trans _ _ _ G2m G3)) (has_inst_declared _ _ Hi2)).
   Qed.
 
   Lemma check_defs_gen_psound : forall eager ds st ds' st',
